@@ -99,36 +99,42 @@ class Ex:
     def of_def(self, d, depth):
         if d[2] == "call":
             t = d[3]
-            return ("call", callee(t) or "?", tuple(self.operand(a, depth) for a in t["args"]), d[0])
+            return ("call", callee(t) or "?", tuple(self._operand(a, depth) for a in t["args"]), d[0])
         if d[2] != "assign":
             return None
         rv = d[3]["rv"]
-        return self.rvalue(rv, depth)
+        return self._rvalue(rv, depth)
 
     def rvalue(self, rv, depth=0):
+        return simplify(self._rvalue(rv, depth))
+
+    def _rvalue(self, rv, depth=0):
         r = rv["r"]
         if r == "use":
-            return self.operand(rv["o"], depth)
+            return self._operand(rv["o"], depth)
         if r == "ref":
             return ("ref", self.place(self.tr.nplace(rv["p"]), depth))
         if r == "cfd":
             return self.place(self.tr.nplace(rv["p"]), depth)
         if r == "bin":
-            return ("bin", rv["op"], self.operand(rv["a"], depth), self.operand(rv["b"], depth))
+            return ("bin", rv["op"], self._operand(rv["a"], depth), self._operand(rv["b"], depth))
         if r == "un":
-            return ("un", rv["op"], self.operand(rv["a"], depth))
+            return ("un", rv["op"], self._operand(rv["a"], depth))
         if r == "cast":
-            return ("cast", self.operand(rv["o"], depth), ty_str(rv["ty"]), rv["kind"])
+            return ("cast", self._operand(rv["o"], depth), ty_str(rv["ty"]), rv["kind"])
         if r == "discr":
             return ("discr", self.place(self.tr.nplace(rv["p"]), depth))
         if r == "agg":
             name = rv.get("n", rv["kind"])
             if rv["kind"] == "adt":
                 name = rv["n"] + "::" + rv["vname"]
-            return ("agg", name, tuple(self.operand(o, depth) for o in rv["ops"]), tuple(rv.get("fields", [])))
+            return ("agg", name, tuple(self._operand(o, depth) for o in rv["ops"]), tuple(rv.get("fields", [])))
         return ("?",)
 
     def operand(self, o, depth=0):
+        return simplify(self._operand(o, depth))
+
+    def _operand(self, o, depth=0):
         if depth > 24:
             return ("?",)
         if "k" in o:
@@ -154,6 +160,45 @@ class Ex:
         if t["t"] != "switch":
             return None
         return self.operand(t["d"]), t
+
+
+_OPS = {"Add": lambda a, b: a + b, "Sub": lambda a, b: a - b, "Mul": lambda a, b: a * b,
+        "BitAnd": lambda a, b: a & b, "BitOr": lambda a, b: a | b, "Shl": lambda a, b: a << b,
+        "Shr": lambda a, b: a >> b}
+
+
+def simplify(e):
+    """Constant folding of the few shapes rustc leaves unfolded in mir_built
+    (`Enum::Variant as u8` becomes `(discr + 0) as u8`)."""
+    if not isinstance(e, tuple) or not e:
+        return e
+    k = e[0]
+    if k == "proj":
+        inner = simplify(e[1])
+        if inner[0] == "bin" and inner[1].endswith("WithOverflow") and e[2] == ("0",):
+            a, b = simplify(inner[2]), simplify(inner[3])
+            op = inner[1][:-len("WithOverflow")]
+            if a[0] == "const" and b[0] == "const" and isinstance(a[1], int) and isinstance(b[1], int) and op in _OPS:
+                return ("const", _OPS[op](a[1], b[1]))
+            return ("bin", op, a, b)
+        return ("proj", inner, e[2])
+    if k == "bin":
+        a, b = simplify(e[2]), simplify(e[3])
+        if a[0] == "const" and b[0] == "const" and isinstance(a[1], int) and isinstance(b[1], int) and e[1] in _OPS:
+            return ("const", _OPS[e[1]](a[1], b[1]))
+        return ("bin", e[1], a, b)
+    if k == "cast":
+        a = simplify(e[1])
+        if a[0] == "const" and isinstance(a[1], int) and e[3] == "IntToInt":
+            return a
+        return ("cast", a) + tuple(e[2:])
+    if k in ("call", "agg"):
+        return (k, e[1], tuple(simplify(a) for a in e[2])) + tuple(e[3:])
+    if k in ("ref", "discr"):
+        return (k, simplify(e[1]))
+    if k == "un":
+        return ("un", e[1], simplify(e[2]))
+    return e
 
 
 def show(e, depth=0):
